@@ -8,6 +8,53 @@ class Program:
         self.funcs = d['funcs']
         self.types = d['types']
         self.packages = d['packages']
+        self.aliases = {}     # stable name -> go/ssa function key   (pkg.var.Field for closures stored in package-level literals)
+        self.display = {}     # go/ssa function key -> stable name
+        self._closure_aliases()
+
+    def _closure_aliases(self):
+        """closures stored into fields of composite literals assigned to package-level variables
+        (cobra commands: `var sampleCmd = &cobra.Command{RunE: func...}`) get the stable name pkg.var.Field;
+        go/ssa numbers them init$N in file order, which shifts whenever a file is added"""
+        for pk in self.packages:
+            f = self.funcs.get(pk + '.init')
+            if not f:
+                continue
+            alloc = {}
+            faddr = {}
+            stored = {}
+            for blk in f['blocks']:
+                for x in blk['instrs']:
+                    op = x['op']
+                    if op == 'Alloc':
+                        alloc[x['name']] = x['name']
+                    elif op == 'FieldAddr' and x['x'].get('name') in alloc:
+                        try:
+                            st = self.under(self.types[x['x']['type']]['elem'])[1]
+                            faddr[x['name']] = (x['x']['name'], st['fields'][x['field']]['name'])
+                        except Exception:
+                            pass
+                    elif op == 'MakeClosure':
+                        stored[x['name']] = x['fn']
+                    elif op == 'Store':
+                        a, v = x['addr'], x['val']
+                        if a.get('name') in faddr:
+                            fk = v.get('key') if v['k'] == 'func' else stored.get(v.get('name'))
+                            if fk:
+                                alloc.setdefault('fields', {})
+                                stored[(faddr[a['name']])] = fk
+                        elif a['k'] == 'global' and v.get('name') in alloc:
+                            for key, fk in list(stored.items()):
+                                if isinstance(key, tuple) and key[0] == v['name']:
+                                    name = '%s.%s.%s' % (pk, a['name'], key[1])
+                                    self.aliases[name] = fk
+                                    self.display[fk] = name
+
+    def resolve(self, key):
+        return self.aliases.get(key, key)
+
+    def shown(self, key):
+        return self.display.get(key, key)
 
     # ---- type helpers -------------------------------------------------
     def T(self, key):
